@@ -240,16 +240,27 @@ impl Prog {
     /// with an empty program that holds all the remaining shares (including main's own spare
     /// handle): `ceil=C h=h0,…,P : prog0 | … | ` with `P = C + 1 - k` (`at=ceil`) or `C - k`
     /// (`at=ceil-1`).
-    pub fn lean_line(&self) -> String {
+    ///
+    /// `debug`: the implementation runs with debug assertions; the model is told (`debug=1`) to
+    /// execute the debug-only counter accesses too.
+    pub fn lean_line(&self, debug: bool) -> String {
+        let dbg = if debug { "debug=1 " } else { "" };
         if self.start == Start::Normal {
-            return self.line();
+            let l = self.line();
+            return if !debug {
+                l
+            } else if self.refs.is_empty() && self.h.iter().all(|&x| x == 1) {
+                format!("debug=1 : {l}")
+            } else {
+                format!("{dbg}{l}")
+            };
         }
         let k: usize = self.h.iter().sum();
         let c = k + 4;
         let p = if self.start == Start::Ceil { c + 1 - k } else { c - k };
         let mut h = self.h.clone();
         h.push(p);
-        format!("ceil={c} h={}{} : {} | ", Self::h_text(&h), self.refs_text(), self.body())
+        format!("{dbg}ceil={c} h={}{} : {} | ", Self::h_text(&h), self.refs_text(), self.body())
     }
 
     /// Removes the phantom thread's (empty) component from a Lean outcome.
